@@ -868,6 +868,10 @@ class Interp:
         frozen = {nm: fr.locals[nm] for nm in getattr(ls, 'frozen', ()) if nm in fr.locals}
         for nm in sorted(names):
             if nm in fr.locals and nm not in frozen:
+                if isinstance(fr.locals[nm], VRef) and not (ls.kinds and nm in ls.kinds):
+                    raise Unsupported('loop reassigns the object-valued local %r: the loop contract '
+                                      'must say what it refers to after an arbitrary number of '
+                                      'iterations (LoopSpec.kinds)' % nm, s)
                 fr.locals[nm] = ctx.fresh_like(fr.locals[nm], nm)
         if ls.kinds:
             for nm, mk in ls.kinds.items():
@@ -898,6 +902,8 @@ class Interp:
                 if ls.on_exit:
                     ls.on_exit(ctx, fr)
                 return   # leaves the loop with this path's state; orelse skipped
+            if getattr(ls, 'ghost_step', None):
+                ls.ghost_step(ctx, fr)
             for lbl, b in ls.inv(ctx, fr):
                 ctx.oblige(pfx + 'inv-preserve.' + lbl, b, s, assume_after=False)
             for nm, v0 in frozen.items():
